@@ -67,6 +67,9 @@ type Prop[C any] struct {
 	Enumerate func(tier string, shard, nshards int, yield func(C) bool) (exhaustive bool, note string)
 	// Describe may return a compact rendering of a case for evidence samples.
 	Describe func(c C) interface{}
+	// WriteBefore: write each case to $VERIF_OUT/current-case.json before it runs
+	// (for checks whose failure halts the process, e.g. the race detector).
+	WriteBefore bool
 }
 
 type entry struct {
@@ -78,13 +81,14 @@ type entry struct {
 	enumerate       func(tier string, shard, nshards int, yield func(interface{}) bool) (bool, string)
 	describe        func(c interface{}) interface{}
 	hasGen          bool
+	writeBefore     bool
 }
 
 var registry = map[string]*entry{}
 
 // Register adds a property to the registry.
 func Register[C any](p Prop[C]) {
-	e := &entry{id: p.ID, level: p.Level, rule: p.Rule, assumptions: p.Assumptions, hasGen: p.Gen != nil}
+	e := &entry{id: p.ID, level: p.Level, rule: p.Rule, assumptions: p.Assumptions, hasGen: p.Gen != nil, writeBefore: p.WriteBefore}
 	if p.Gen != nil {
 		e.gen = func(t *rapid.T, tier string) interface{} { return p.Gen(t, tier) }
 	}
@@ -195,6 +199,13 @@ func caseHash(c interface{}) uint64 {
 
 func (s *state) eval(c interface{}, record bool) error {
 	o := &Obs{open: s.open, Tier: s.tier}
+	if s.e.writeBefore {
+		cb, _ := json.Marshal(c)
+		rf := replayFile{Property: s.e.id, Origin: "case being executed when the process halted", Case: cb}
+		b, _ := json.Marshal(rf)
+		os.MkdirAll(s.outDir, 0o755)
+		os.WriteFile(filepath.Join(s.outDir, "current-case.json"), b, 0o644)
+	}
 	err := safeRun(s.e, c, o)
 	if !record {
 		return err
